@@ -156,6 +156,7 @@ def nigam_and_jennings_response(acc, dt, periods, xi):
 
 
 def absmax(a, axis=None):
+    a = np.asarray(a, dtype=float)
     amax = a.max(axis)
     amin = a.min(axis)
     return abs(np.where(-amin > amax, amin, amax))
